@@ -4,6 +4,7 @@ import (
 	"fmt"
 	"math"
 	"math/bits"
+	"slices"
 
 	"rsc.io/binaryregexp/syntax"
 )
@@ -105,11 +106,28 @@ func AcceptedLength(regexString string) (AcceptedLengths, error) {
 	if err != nil {
 		return AcceptedLengths{}, err
 	}
-	cache := map[uint32]AcceptedLengths{}
-	evaluate := (func(entry uint32, seen []uint32) (AcceptedLengths, error))(nil)
-	evaluate = func(entry uint32, seen []uint32) (AcceptedLengths, error) {
-		if r, ok := cache[entry]; ok {
-			return r, nil
+	// A result computed while some alternation of seen closed a loop is only
+	// valid in a context in which those alternations are in seen again, so it is
+	// remembered together with them and looked up under that condition.
+	type cachedLengths struct {
+		lengths AcceptedLengths
+		loops   []uint32
+	}
+	cache := map[uint32]cachedLengths{}
+	infinite := AcceptedLengths{math.MaxUint64, math.MaxUint64}
+	evaluate := (func(entry uint32, seen []uint32) (AcceptedLengths, []uint32, error))(nil)
+	evaluate = func(entry uint32, seen []uint32) (AcceptedLengths, []uint32, error) {
+		if c, ok := cache[entry]; ok {
+			valid := true
+			for _, l := range c.loops {
+				if !slices.Contains(seen, l) {
+					valid = false
+					break
+				}
+			}
+			if valid {
+				return c.lengths, c.loops, nil
+			}
 		}
 		r := AcceptedLengths{}
 		pos := entry
@@ -129,20 +147,19 @@ func AcceptedLength(regexString string) (AcceptedLengths, error) {
 				pos = i.Out
 				continue
 			case syntax.InstAlt, syntax.InstAltMatch:
-				for _, s := range seen {
-					if s == pos {
-						cache[entry] = AcceptedLengths{math.MaxUint64, math.MaxUint64}
-						return AcceptedLengths{math.MaxUint64, math.MaxUint64}, nil
-					}
+				if slices.Contains(seen, pos) {
+					loops := []uint32{pos}
+					cache[entry] = cachedLengths{infinite, loops}
+					return infinite, loops, nil
 				}
 				seen = append(seen, pos)
-				r1, err := evaluate(i.Out, seen)
+				r1, l1, err := evaluate(i.Out, seen)
 				if err != nil {
-					return AcceptedLengths{}, err
+					return AcceptedLengths{}, nil, err
 				}
-				r2, err := evaluate(i.Arg, seen)
+				r2, l2, err := evaluate(i.Arg, seen)
 				if err != nil {
-					return AcceptedLengths{}, err
+					return AcceptedLengths{}, nil, err
 				}
 				if r1.MinLength > r2.MinLength {
 					r1.MinLength, r2.MinLength = r2.MinLength, r1.MinLength
@@ -159,16 +176,29 @@ func AcceptedLength(regexString string) (AcceptedLengths, error) {
 				}
 				r.MinLength = add(r.MinLength, r1.MinLength)
 				r.MaxLength = add(r.MaxLength, r1.MaxLength)
-				fallthrough
+				loops := []uint32(nil)
+				for _, l := range l1 {
+					if l != pos {
+						loops = append(loops, l)
+					}
+				}
+				for _, l := range l2 {
+					if l != pos {
+						loops = append(loops, l)
+					}
+				}
+				cache[entry] = cachedLengths{r, loops}
+				return r, loops, nil
 			case syntax.InstMatch:
-				cache[entry] = r
-				return r, nil
+				cache[entry] = cachedLengths{r, nil}
+				return r, nil, nil
 			case syntax.InstFail:
-				cache[entry] = AcceptedLengths{math.MaxUint64, math.MaxUint64}
-				return AcceptedLengths{math.MaxUint64, math.MaxUint64}, nil
+				cache[entry] = cachedLengths{infinite, nil}
+				return infinite, nil, nil
 			}
-			return AcceptedLengths{}, fmt.Errorf("unsupported regex op %q", i.String())
+			return AcceptedLengths{}, nil, fmt.Errorf("unsupported regex op %q", i.String())
 		}
 	}
-	return evaluate(uint32(p.Start), nil)
+	lengths, _, err := evaluate(uint32(p.Start), nil)
+	return lengths, err
 }
